@@ -6,10 +6,10 @@ import LolHtml.Lemmas.CtlSim
 never return a panic-class error in ANY state (`CtlClean`) — the hypothesis of pkg scan's `C06_relex_end_tag`
 (through `dispOps_clean_guard`) and of pkg inv's `parse_post`. The real controller is not `CtlClean`, and
 cannot be made so by a state invariant (`Full_ctlClean_unattainable`). Here the same conclusion is obtained
-for every controller with `PanicLaws ctl D` — on a callback-closed set `D` of states the callbacks return no
-`internal`-class error and no `.panic guardSite` — for the runs in which no call returns a panic-class
-result: such a run is, call by call, the run of `cleanCtl ctl` (panic- and internal-class errors of the
-callbacks replaced by the handler error), which IS `CtlClean`; `Lemmas/CtlSim.lean` transports
+for every controller with `PanicLaws ctl D` — on a callback-closed set `D` of states the callbacks never
+return `.panic guardSite`: until the rewriter is poisoned by a failing call, its run is, call by call, the run
+of `cleanCtl ctl` (panic- and internal-class errors of the callbacks replaced by the handler error), which IS
+`CtlClean`; `Lemmas/CtlSim.lean` transports
 
 * "the guarded parse is the real parse" (`C06_relex_end_tag` for `cleanCtl ctl`): if the guarded parse of
   `ctl` returned `.panic guardSite`, then either it agrees with the guarded parse of `cleanCtl ctl`, which is
@@ -88,11 +88,11 @@ theorem cleanCtl_clean (ctl : Controller γ) : CtlClean (cleanCtl ctl) where
 theorem cleanCtl_resumeLaws {ctl : Controller γ} (h : ResumeLaws ctl) : ResumeLaws (cleanCtl ctl) :=
   ⟨h.emit_start, h.emit_tok⟩
 
-/-- an error a callback may return on `D`: not `internal`-class, not the guard's -/
-def OkErr (e : Err) : Prop := (∀ s, e ≠ .internal s) ∧ e ≠ .panic guardSite
+/-- an error a callback may return on `D`: not the guard's -/
+def OkErr (e : Err) : Prop := e ≠ .panic guardSite
 
 /-- **What the transport needs from the controller**: a set `D` of states closed under the callbacks, on
-which the callbacks return no `internal`-class error and no `.panic guardSite`. -/
+which the callbacks never return `.panic guardSite`. -/
 structure PanicLaws (ctl : Controller γ) (D : γ → Prop) : Prop where
   startTag_D : ∀ g n ns, D g → D (ctl.startTag g n ns).1
   auxInfo_D : ∀ g i, D g → D (ctl.auxInfo g i).1
@@ -106,22 +106,28 @@ structure PanicLaws (ctl : Controller γ) (D : γ → Prop) : Prop where
 
 /-- a `CtlClean` controller has the laws on all states -/
 theorem PanicLaws.of_clean {ctl : Controller γ} (hc : CtlClean ctl) : PanicLaws ctl (fun _ => True) := by
-  have ok : ∀ e : Err, e.Clean → OkErr e := fun e he =>
-    ⟨fun s hs => by subst hs; exact he, fun hs => by subst hs; exact he⟩
+  have ok : ∀ e : Err, e.Clean → OkErr e := fun e he => fun hs => by subst hs; exact he
   exact ⟨fun _ _ _ _ => trivial, fun _ _ _ => trivial, fun _ _ _ => trivial, fun _ _ _ => trivial, fun _ _ => trivial,
     fun g n ns e _ h => ok e (hc.startTag g n ns e h), fun g i e _ h => ok e (hc.auxInfo g i e h),
     fun g t e _ h => ok e (hc.token g t e h), fun g e _ h => ok e (hc.handleEnd g e h)⟩
 
-/-- the class of errors at which `ctl` and `cleanCtl ctl` part: a panic that is not the guard's -/
-def GP : Err → Prop := fun e => ∃ m, e = .panic m ∧ m ≠ guardSite
-
-theorem GP_not_internal : ∀ s, ¬ GP (.internal s) := fun s ⟨m, hm, _⟩ => by cases hm
+/-- the class of errors at which `ctl` and `cleanCtl ctl` part: a panic that is not the guard's, or an
+`internal`-class error -/
+def GP : Err → Prop := fun e => (∃ m, e = .panic m ∧ m ≠ guardSite) ∨ ∃ s, e = .internal s
 
 theorem okErr_cases {e : Err} (h : OkErr e) : cleanErr e = e ∨ GP e := by
   cases e with
-  | panic m => exact Or.inr ⟨m, rfl, fun hm => h.2 (by rw [hm])⟩
-  | internal s => exact absurd rfl (h.1 s)
+  | panic m => exact Or.inr (Or.inl ⟨m, rfl, fun hm => h (by rw [hm])⟩)
+  | internal s => exact Or.inr (Or.inr ⟨s, rfl⟩)
   | _ => exact Or.inl rfl
+
+/-- a parse that fails at such an error does not return the guard's error -/
+theorem GP_parseErr {e : Err} (h : GP e) : RelE.parseErr e ≠ .panic guardSite := by
+  rcases h with ⟨m, rfl, hne⟩ | ⟨s, rfl⟩
+  · intro hh
+    simp only [RelE.parseErr, Err.panic.injEq] at hh
+    exact hne hh
+  · intro hh; cases hh
 
 /-- `ctl` is followed by `cleanCtl ctl` until a callback fails with a panic -/
 theorem cleanCtl_sim {ctl : Controller γ} {D : γ → Prop} (h : PanicLaws ctl D) : CtlSim ctl (cleanCtl ctl) D GP where
@@ -255,7 +261,7 @@ theorem parse_facts (ht : EmitsChecked w.tbl = true) (hwf : WfTable w.tbl = true
   · rcases guard_rel ht inp last p with he | hab
     · exact he
     · exfalso
-      rcases parseG_sim hsim GP_not_internal ht inp last p hd with ⟨he, _⟩ | ⟨e, ⟨m, hm, hne⟩, he⟩
+      rcases parseG_sim hsim ht inp last p hd with ⟨he, _⟩ | ⟨e, hGe, he⟩
       · rw [he, hGC] at hab
         rw [hab] at hpost
         simp only [ErrOK] at hpost
@@ -263,63 +269,60 @@ theorem parse_facts (ht : EmitsChecked w.tbl = true) (hwf : WfTable w.tbl = true
         simp [U1, guardSite]
       · rw [hab] at he
         simp only [Except.error.injEq] at he
-        rw [hm] at he
-        simp only [Err.panic.injEq] at he
-        exact hne he.symm
+        exact GP_parseErr hGe he.symm
   · intro consumed hok
-    rcases parse_sim hsim GP_not_internal ht inp last p hd with ⟨he, _⟩ | ⟨e, _, he⟩
+    rcases parse_sim hsim ht inp last p hd with ⟨he, _⟩ | ⟨e, _, he⟩
     · rw [← he, hok] at hpost
       exact ⟨hpost.1, hpost.2.1⟩
     · rw [hok] at he; cases he
 
-/-- no call returned a panic-class result -/
-def NoPanic (rs : List CallRes) : Prop := ∀ m, CallRes.err (.panic m) ∉ rs
-
 include hpl ht in
-/-- a prefix of writes without panic results is the run of the cleaned controller -/
-theorem prefix_agree (g : γ) (hg : D g) (cfg : Settings) (pre : List Bytes)
-    (hnp : NoPanic (C01.writeAll w (C01.Rewriter.new w g cfg) pre).2) :
-    C01.writeAll w (C01.Rewriter.new w g cfg) pre =
+/-- a prefix of writes has poisoned the rewriter, or is the run of the cleaned controller -/
+theorem prefix_agree (g : γ) (hg : D g) (cfg : Settings) (pre : List Bytes) :
+    (C01.writeAll w (C01.Rewriter.new w g cfg) pre).1.poisoned = true ∨
+    (C01.writeAll w (C01.Rewriter.new w g cfg) pre =
       C01.writeAll (cleanWorld w) (C01.Rewriter.new (cleanWorld w) g cfg) pre ∧
-    RD D (C01.writeAll w (C01.Rewriter.new w g cfg) pre).1 := by
+    RD D (C01.writeAll w (C01.Rewriter.new w g cfg) pre).1) := by
   have hsim := cleanCtl_sim hpl
   rw [← new_eq hsim g hg cfg]
-  rcases writeAll_sim hsim GP_not_internal ht pre (C01.Rewriter.new w g cfg) (Or.inr hg) with hh | ⟨e, ⟨m, hm, _⟩, he⟩
-  · exact hh
-  · subst hm
-    exact absurd he (hnp m)
+  rcases writeAll_sim hsim ht pre (C01.Rewriter.new w g cfg) (Or.inr hg) with hh | ⟨hp, _⟩
+  · exact Or.inr hh
+  · exact Or.inl hp
 
 include hside ht hwf hl hpl in
-/-- every call of the checked rewriter after a prefix of writes without panic results is the real call -/
-theorem step_eq' (g : γ) (hg : D g) (cfg : Settings) (pre : List Bytes)
-    (hnp : NoPanic (C01.writeAll w (C01.Rewriter.new w g cfg) pre).2) :
+/-- every call of the checked rewriter after a prefix of real writes is the real call -/
+theorem step_eq' (g : γ) (hg : D g) (cfg : Settings) (pre : List Bytes) :
     (∀ data, (C01.writeAll w (C01.Rewriter.new w g cfg) pre).1.writeG w data =
       (C01.writeAll w (C01.Rewriter.new w g cfg) pre).1.write w data) ∧
     (C01.writeAll w (C01.Rewriter.new w g cfg) pre).1.endG w = (C01.writeAll w (C01.Rewriter.new w g cfg) pre).1.end w := by
   have hw := WfTable.wf hwf
-  obtain ⟨hA, hRD⟩ := prefix_agree ht hpl g hg cfg pre hnp
+  have hPA := prefix_agree ht hpl g hg cfg pre
   have hc2 := cleanCtl_clean w.ctl
   have hinv := (C15.writeAll_post (w := cleanWorld w) hc2 hw pre (C01.Rewriter.new (cleanWorld w) g cfg)
     (Or.inr (Stream.new_SInv (w := cleanWorld w) hw g cfg))).2
   have hrel := C06.C06_relex_end_tag (cleanWorld w) L TT P S hside ht (pendE (cleanCtl w.ctl)) (fun _ => True)
     (endLawsD (cleanCtl_resumeLaws hl) hc2) g cfg pre
   dsimp only at hrel
-  rw [← hA] at hinv hrel
-  generalize C01.writeAll w (C01.Rewriter.new w g cfg) pre = R at hRD hinv hrel ⊢
-  have facts : R.1.poisoned = false → SInv w R.1.stream ∧ D R.1.stream.disp.ctl := by
+  generalize C01.writeAll (cleanWorld w) (C01.Rewriter.new (cleanWorld w) g cfg) pre = RC at hPA hinv hrel
+  generalize C01.writeAll w (C01.Rewriter.new w g cfg) pre = R at hPA ⊢
+  have facts : R.1.poisoned = false → R = RC ∧ SInv w R.1.stream ∧ D R.1.stream.disp.ctl := by
     intro hp
-    constructor
-    · rcases hinv with hh | hh
-      · rw [hp] at hh; cases hh
-      · exact hh
-    · rcases hRD with hh | hh
-      · rw [hp] at hh; cases hh
-      · exact hh
+    rcases hPA with hh | ⟨hA, hRD⟩
+    · rw [hp] at hh; cases hh
+    · subst hA
+      refine ⟨rfl, ?_, ?_⟩
+      · rcases hinv with hh | hh
+        · rw [hp] at hh; cases hh
+        · exact hh
+      · rcases hRD with hh | hh
+        · rw [hp] at hh; cases hh
+        · exact hh
   constructor
   · intro data
     apply rewriter_writeG_eq
     intro hp
-    obtain ⟨⟨hrcs, hpinv⟩, hd⟩ := facts hp
+    obtain ⟨hA, ⟨hrcs, hpinv⟩, hd⟩ := facts hp
+    subst hA
     have hlen : (if R.1.stream.hasBuffered then R.1.stream.buf.data.length else 0) ≤ (R.1.stream.pending ++ data).length := by
       simp only [Stream.pending, List.length_append]
       split <;> omega
@@ -328,11 +331,48 @@ theorem step_eq' (g : γ) (hg : D g) (cfg : Settings) (pre : List Bytes)
     exact stream_writeG_eq_core R.1.stream data f1 f2
   · apply rewriter_endG_eq
     intro hp
-    obtain ⟨⟨hrcs, hpinv⟩, hd⟩ := facts hp
+    obtain ⟨hA, ⟨hrcs, hpinv⟩, hd⟩ := facts hp
+    subst hA
     have hp1 : PInv w.tbl R.1.stream.pending.length (fun d : Disp γ => d.rcs) R.1.stream.parser := by
       unfold Stream.pending
       split <;> rename_i hb <;> simpa [hb] using hpinv
     exact stream_endG_eq _ (parse_facts ht hwf hpl R.1.stream.pending true R.1.stream.parser hd hp1 (hrel hp).2).1
+
+omit hside ht hwf hl hpl in
+theorem writeAll_append (r : Rewriter γ) (pre cs : List Bytes) :
+    C01.writeAll w r (pre ++ cs) =
+      ((C01.writeAll w (C01.writeAll w r pre).1 cs).1,
+       (C01.writeAll w r pre).2 ++ (C01.writeAll w (C01.writeAll w r pre).1 cs).2) := by
+  induction pre generalizing r with
+  | nil => rfl
+  | cons p pre ih =>
+    simp only [List.cons_append, C01.writeAll]
+    rw [ih]
+
+include hside ht hwf hl hpl in
+/-- the writes of the checked rewriter are the real writes -/
+theorem writeAllG_eq_from' (g : γ) (hg : D g) (cfg : Settings) (cs : List Bytes) :
+    ∀ pre, writeAllG w (C01.writeAll w (C01.Rewriter.new w g cfg) pre).1 cs =
+        C01.writeAll w (C01.writeAll w (C01.Rewriter.new w g cfg) pre).1 cs := by
+  induction cs with
+  | nil => intro pre; rfl
+  | cons c cs ih =>
+    intro pre
+    simp only [writeAllG, C01.writeAll]
+    rw [(step_eq' hside ht hwf hl hpl g hg cfg pre).1 c, ← writeAll_snoc, ih (pre ++ [c])]
+
+include hside ht hwf hl hpl in
+/-- **The checked rewriter is the real one**, on every chunking. -/
+theorem writeAllG_eq' (g : γ) (hg : D g) (cfg : Settings) (cs : List Bytes) :
+    writeAllG w (C01.Rewriter.new w g cfg) cs = C01.writeAll w (C01.Rewriter.new w g cfg) cs :=
+  writeAllG_eq_from' hside ht hwf hl hpl g hg cfg cs []
+
+include hside ht hwf hl hpl in
+theorem runG_eq' (g : γ) (hg : D g) (cfg : Settings) (cs : List Bytes) :
+    runG w (C01.Rewriter.new w g cfg) cs = C01.run w (C01.Rewriter.new w g cfg) cs := by
+  unfold runG C01.run
+  dsimp only
+  rw [writeAllG_eq' hside ht hwf hl hpl g hg cfg cs, (step_eq' hside ht hwf hl hpl g hg cfg cs).2]
 
 end
 
